@@ -136,6 +136,10 @@ type run struct {
 	// sdcWatch (probes only): how long a Shutdown concurrent with a failing start may take once that
 	// start has returned; 0 = the watchdog
 	sdcWatch time.Duration
+	// when Shutdown of run 1 / of run 2 was called (UnixNano, 0 = not yet); read by the handlers for
+	// the evidence class "reply written later than WriteTimeout after the Shutdown call" only - no
+	// verdict depends on it
+	sdCallAt [2]atomic.Int64
 }
 
 // shared: state of one execution that both runs of the Server value (and the server's callbacks,
@@ -302,6 +306,15 @@ func (r *run) handler(w dns.ResponseWriter, req *dns.Msg) {
 		hijack()
 	}
 	write := func() {
+		if wt := time.Duration(r.s.WriteTimeoutMs) * time.Millisecond; wt > 0 {
+			k := 0
+			if j >= restartBase {
+				k = 1
+			}
+			if t0 := r.sdCallAt[k].Load(); t0 != 0 && time.Since(time.Unix(0, t0)) > wt {
+				r.log.Addf("handler.write-past-writetimeout(%d,%d)", j, q)
+			}
+		}
 		if err := w.WriteMsg(reply); err != nil {
 			r.log.Addf("handler.writeerr(%d,%d)", j, q)
 			r.log.Addf("  (write error of handler %d,%d: %v)", j, q, err)
@@ -444,6 +457,9 @@ func (r *run) newServer() *dns.Server {
 		DecorateReader: func(rd dns.Reader) dns.Reader { return &spyReader{Reader: rd, r: r} },
 		DecorateWriter: func(w dns.Writer) dns.Writer { return spyWriter{w, r} },
 		MaxTCPQueries:  r.s.MaxTCP,
+		// 0 = the library's default; no timeout of the server entitles it to drop the reply of a
+		// handler that was started (I2), however late after the Shutdown call it is written
+		WriteTimeout: time.Duration(r.s.WriteTimeoutMs) * time.Millisecond,
 	}
 	return srv
 }
@@ -1030,6 +1046,7 @@ func (r *run) execute() (err error) {
 	}
 	sdDone := make(chan struct{})
 	go func() {
+		r.sdCallAt[0].Store(time.Now().UnixNano())
 		r.log.Point("shutdown.call")
 		var e error
 		switch {
@@ -1776,6 +1793,7 @@ func (r *run) secondRun(mode string, serve1Done, clients1Done, sd1Done <-chan st
 	sd2Done := make(chan struct{})
 	go func() {
 		defer close(sd2Done)
+		r.sdCallAt[1].Store(time.Now().UnixNano())
 		r.log.Point("shutdown2.call")
 		var e error
 		if rs.CtxAPI {
@@ -2055,6 +2073,23 @@ func (r *run) classes() []string {
 	}
 	if s.stream() {
 		cl = append(cl, fmt.Sprintf("maxTCP=%d", s.MaxTCP))
+	}
+	switch {
+	case s.WriteTimeoutMs == 0:
+		cl = append(cl, "writeTimeout=default")
+	case s.WriteTimeoutMs <= 5:
+		cl = append(cl, "writeTimeout=1..5ms")
+	default:
+		cl = append(cl, "writeTimeout=1h")
+	}
+	for _, n := range names {
+		if strings.HasPrefix(n, "handler.write-past-writetimeout(") {
+			cl = append(cl, "reply-written-later-than-WriteTimeout-after-shutdown-call")
+			if s.stream() {
+				cl = append(cl, "reply-written-later-than-WriteTimeout-after-shutdown-call:stream")
+			}
+			break
+		}
 	}
 	pipe, part := false, false
 	for _, c := range s.Clients {
